@@ -10,6 +10,7 @@ package validation
 //@   params re, s
 
 //@ func Validator.ValidateParallelCompletionStrategy
+//@   params v, completionStrategy, fldPath
 //@   tags C17
 //@   ensures [C17] (len(result) == 0) == (completionStrategy == v1alpha1.AllSuccessful || completionStrategy == v1alpha1.AnySuccessful)
 
@@ -18,6 +19,7 @@ package validation
 //@ pure matrixOK(m map[string][]string) bool = forall k string :: (k in m) ==> valsOK(m[k])
 
 //@ func Validator.validateParallelismSpecWithMatrix
+//@   params v, withMatrix, fldPath
 //@   tags C14, C17
 //@   loop 1 invariant len(allErrs) >= 0
 //@   loop 1 invariant len(allErrs) == 0 ==> (forall k string :: {visited(k)} visited(k) ==> valsOK(withMatrix[k]))
@@ -30,6 +32,7 @@ package validation
 //@ pure numTypes(spec *v1alpha1.ParallelismSpec) Int = (spec.WithCount != nil ? 1 : 0) + (len(spec.WithKeys) > 0 ? 1 : 0) + (len(spec.WithMatrix) > 0 ? 1 : 0)
 
 //@ func Validator.ValidateParallelismSpec
+//@   params v, spec, fldPath
 //@   tags C14, C17
 //@   requires spec != nil
 //@   loop 1 invariant -1 <= rangeindex && rangeindex < len(spec.WithKeys) && len(allErrs) >= 0 && numSpecified == 1 && spec.WithCount == nil
@@ -54,6 +57,7 @@ package validation
 //@     && semEq(iface(a.MaxAttempts), iface(b.MaxAttempts)) && semEq(iface(a.RetryDelaySeconds), iface(b.RetryDelaySeconds))
 
 //@ func Validator.ValidateJobTemplateSpecImmutable
+//@   params v, oldTemplate, template, fldPath
 //@   tags C17
 //@   requires oldTemplate != nil && template != nil
 //@   ensures [C17] template-fields-immutable: (len(result) == 0) == sameTemplate(template, oldTemplate)
@@ -61,12 +65,14 @@ package validation
 // the kill timestamp cannot change once it has passed
 //@ pure sameInstant(a *metav1.Time, b *metav1.Time) bool = (a == nil && b == nil) || (a != nil && b != nil && a.Time.Equal(b.Time))
 //@ func Validator.ValidateKillTimestampUpdate
+//@   params v, oldTimestamp, timestamp, fldPath
 //@   tags C17, C12
 //@   modifies clock
 //@   ensures [C17,C12] passed-kill-timestamp-immutable: len(result) == 0 && oldTimestamp != nil && !oldTimestamp.Time.IsZero() && ns(oldTimestamp.Time) < old(clock) ==> sameInstant(oldTimestamp, timestamp)
 //@   ensures [C17] otherwise-accepted: (oldTimestamp == nil || oldTimestamp.Time.IsZero() || sameInstant(oldTimestamp, timestamp)) ==> len(result) == 0
 
 //@ func Validator.ValidateJobSpecUpdate
+//@   params v, oldSpec, spec, fldPath
 //@   tags C17
 //@   requires oldSpec != nil && spec != nil
 //@   assumes template-was-defaulted-by-the-mutating-webhook: oldSpec.Template != nil && spec.Template != nil
@@ -77,11 +83,13 @@ package validation
 //@        ==> sameInstant(oldSpec.KillTimestamp, spec.KillTimestamp)
 
 //@ func Validator.ValidateJobMetadataUpdate
+//@   params v, oldMetadata, metadata, fldPath
 //@   tags C17
 //@   requires oldMetadata != nil && metadata != nil
 //@   ensures [C17] jobconfig-label-immutable: (len(result) == 0) == (metadata.Labels[jobconfig.LabelKeyJobConfigUID] == oldMetadata.Labels[jobconfig.LabelKeyJobConfigUID])
 
 //@ func Validator.ValidateJobUpdate
+//@   params v, oldRj, rj
 //@   tags C17
 //@   requires oldRj != nil && rj != nil
 //@   assumes template-was-defaulted-by-the-mutating-webhook: oldRj.Spec.Template != nil && rj.Spec.Template != nil
@@ -99,14 +107,17 @@ package validation
 //@ import cron "github.com/furiko-io/furiko/pkg/execution/util/cron"
 
 //@ func Validator.ValidateCronScheduleExpression
+//@   params v, cronSchedule, fldPath
 //@   tags C17
 //@   ensures [C17] accepted-line-parses: len(result) == 0 ==> cron.lineOK(curCronKind(), cronSchedule)
 
 //@ func Validator.ValidateTimezone
+//@   params v, timezone, fldPath
 //@   tags C17
 //@   ensures [C17] accepted-timezone-parses: (len(result) == 0) == tzOK(timezone)
 
 //@ func Validator.ValidateCronSchedule
+//@   params v, spec, fldPath
 //@   tags C17
 //@   requires spec != nil
 //@   loop 1 invariant -1 <= rangeindex && rangeindex < len(spec.Expressions) && len(allErrs) >= 0 && expressionFields >= 1 && expressionFields <= 2
@@ -116,6 +127,7 @@ package validation
 //@   ensures [C17] accepted-schedule-is-loadable: len(result) == 0 ==> cron.cronAccepted(spec, curCronKind())
 
 //@ func Validator.ValidateScheduleSpec
+//@   params v, spec, fldPath
 //@   tags C17
 //@   ensures [C17] accepted-schedule-is-loadable: len(result) == 0 && spec != nil ==> spec.Cron != nil && cron.cronAccepted(spec.Cron, curCronKind())
 
@@ -126,6 +138,7 @@ package validation
 //@   fresh result
 //@ import options "github.com/furiko-io/furiko/pkg/core/options"
 //@ func Validator.ValidateOptionSpec
+//@   params v, spec, fldPath
 //@   tags C17, C18
 //@   ensures [C17,C18] accepted-spec-has-distinct-option-names: spec != nil && len(result) == 0 ==> options.distinctNames(spec.Options)
 
@@ -137,25 +150,30 @@ package validation
 //@     && (t.RetryDelaySeconds != nil ==> *t.RetryDelaySeconds >= 0) && (t.TaskPendingTimeoutSeconds != nil ==> *t.TaskPendingTimeoutSeconds >= 0)
 
 //@ func Validator.ValidateMaxRetryAttempts
+//@   params v, attempts, fldPath
 //@   tags C17, C08
 //@   ensures [C17,C08] attempts-bounded: (len(result) == 0) == (0 < attempts && attempts <= 50)
 
 //@ func Validator.ValidateJobTemplateSpec
+//@   params v, template, fldPath
 //@   tags C17
 //@   requires template != nil
 //@   ensures [C17] accepted-template-is-processable: len(result) == 0 ==> templateOK(template)
 
 //@ func Validator.ValidateJobTemplate
+//@   params v, spec, fldPath
 //@   tags C17
 //@   requires spec != nil
 //@   ensures [C17] len(result) == 0 ==> templateOK(addr(spec.Spec))
 
 //@ func Validator.ValidateConcurrencyPolicy
+//@   params v, concurrencyPolicy, fldPath
 //@   tags C17
 //@   loop 1 invariant true
 //@   ensures [C17] known-policy: len(result) == 0 ==> concurrencyPolicy != "" && concurrencyPolicy.IsValid()
 
 //@ func Validator.ValidateConcurrencySpec
+//@   params v, spec, fldPath
 //@   tags C17, C05
 //@   ensures [C17,C05] accepted-concurrency: len(result) == 0 ==> spec.Policy != "" && spec.Policy.IsValid()
 //@        && (spec.MaxConcurrency != nil ==> *spec.MaxConcurrency > 0 && spec.Policy != v1alpha1.ConcurrencyPolicyAllow)
@@ -163,6 +181,7 @@ package validation
 // an accepted JobConfig can be loaded by the cron scheduler (Schedule.newItem / parseCronAndTimezone) and its template
 // satisfies what the controllers rely on
 //@ func Validator.ValidateJobConfigSpec
+//@   params v, spec, fldPath
 //@   tags C17
 //@   requires spec != nil
 //@   ensures [C17] accepted-jobconfig-is-processable: len(result) == 0 ==> templateOK(addr(spec.Template.Spec))
@@ -170,6 +189,7 @@ package validation
 //@        && (spec.Option != nil ==> options.distinctNames(spec.Option.Options))
 
 //@ func Validator.ValidateJobConfig
+//@   params v, rjc
 //@   tags C17
 //@   requires rjc != nil
 //@   ensures [C17] accepted-jobconfig-is-processable: len(result) == 0 ==> templateOK(addr(rjc.Spec.Template.Spec))
